@@ -346,3 +346,141 @@ async fn sni_follows_each_request() {
     assert_eq!(seen, vec![Some("example.com".to_string()), Some("other.example".to_string()), Some("third.example".to_string())],
         "the server name offered must be the host of each request's own URI");
 }
+
+/// what the peer of a client sees first when the client is asked for `uri`: the first five bytes on the wire
+async fn first_bytes_on_the_wire(
+    build: &dyn Fn(DuplexTransport) -> crate::client::Client,
+    uri: &str,
+) -> Result<[u8; 5], String> {
+    use tokio::io::AsyncReadExt as _;
+    let (tx, incoming) = crate::stream::duplex::pair();
+    let mut client = build(DuplexTransport::new(16 * 1024, tx));
+    let req = http::Request::builder()
+        .uri(uri)
+        .version(http::Version::HTTP_11)
+        .header("x-secret", "hunter2")
+        .body(crate::Body::from("hello world"))
+        .unwrap();
+    let request = tokio::spawn(async move { client.request(req).await.map(|_| ()).map_err(|e| format!("{e:?}")) });
+    // the peer does not speak TLS (or anything): it only looks at the first bytes it is sent
+    let wire = async {
+        let mut incoming = incoming.fuse();
+        let mut conn = match incoming.next().await {
+            Some(Ok(conn)) => conn,
+            _ => return Err("the client went away without connecting".to_string()),
+        };
+        let mut first = [0u8; 5];
+        conn.read_exact(&mut first).await.map_err(|e| format!("connected, then: {e}"))?;
+        Ok(first)
+    };
+    let seen = match tokio::time::timeout(Duration::from_secs(10), wire).await {
+        Ok(seen) => seen,
+        Err(_) => Err("nothing was sent within 10 s".to_string()),
+    };
+    request.abort();
+    match (seen, request.await) {
+        (Err(why), Ok(Err(e))) => Err(format!("{why}; the request failed with {e}")),
+        (Err(why), Err(e)) if e.is_panic() => Err(format!("{why}; the request panicked")),
+        (seen, _) => seen,
+    }
+}
+
+/// A.builder.tls_wiring [C12] (bounded stand-in for `client::Builder`: every `with_*` method re-assembles the builder
+/// field by field and `build_service` hands the TLS configuration to the transport - plain data plumbing through
+/// generic tower types, no contract covers it): whatever the order of the builder calls that configure TLS and the
+/// transport, an https / wss request through the built client starts with a TLS handshake record (0x16 0x03 ..),
+/// never with the request in the clear.
+#[tokio::test]
+async fn standin_builder_tls_wiring() {
+    use crate::client::conn::protocol::auto::HttpConnectionBuilder;
+    use crate::client::conn::transport::tcp::TcpTransportConfig;
+    use crate::client::{Builder, Client};
+    use tower_http::follow_redirect::policy;
+    fixtures::tls_install_default();
+    let cfg = fixtures::tls_client_config;
+    type Build = Box<dyn Fn(DuplexTransport) -> Client>;
+
+    let orders: Vec<(&str, Build)> = vec![
+        ("with_tls, with_protocol, with_default_pool, with_transport", Box::new(move |t| {
+            Builder::new().with_tls(cfg()).with_protocol(hyper::client::conn::http1::Builder::new()).with_default_pool().with_transport(t).build()
+        })),
+        ("with_transport, with_tls", Box::new(move |t| {
+            Builder::new().with_transport(t).with_tls(cfg()).with_auto_http().build()
+        })),
+        ("with_tls, with_transport", Box::new(move |t| {
+            Builder::new().with_tls(cfg()).with_transport(t).with_auto_http().build()
+        })),
+        ("with_default_tls, with_transport", Box::new(|t| {
+            Builder::new().with_default_tls().with_auto_http().with_transport(t).build()
+        })),
+        ("with_transport, with_default_tls", Box::new(|t| {
+            Builder::new().with_auto_http().with_transport(t).with_default_tls().build()
+        })),
+        ("Builder::default(), with_transport", Box::new(|t| Builder::default().with_transport(t).build())),
+        ("Client::build_tcp_http(), with_transport", Box::new(|t| Client::build_tcp_http().with_transport(t).build())),
+        ("Builder::default(), with_tls, with_transport", Box::new(move |t| Builder::default().with_tls(cfg()).with_transport(t).build())),
+        ("with_tls, with_tcp, with_transport", Box::new(move |t| {
+            Builder::new().with_tls(cfg()).with_tcp(TcpTransportConfig::default()).with_auto_http().with_transport(t).build()
+        })),
+        ("*tls() = Some(..), with_transport", Box::new(move |t| {
+            let mut b = Builder::new().with_auto_http();
+            *b.tls() = Some(cfg());
+            b.with_transport(t).build()
+        })),
+        ("without_tls, with_tls, with_transport", Box::new(move |t| {
+            Builder::default().without_tls().with_tls(cfg()).with_transport(t).build()
+        })),
+        // TLS configured first, then every other method that re-assembles the builder, the transport last ...
+        ("with_tls, <every re-assembling method>, with_transport", Box::new(move |t| {
+            Builder::new()
+                .with_tls(cfg())
+                .with_auto_http()
+                .with_protocol(HttpConnectionBuilder::default())
+                .with_user_agent("replay/1".into())
+                .with_redirect_policy(policy::Limited::default())
+                .without_redirects()
+                .with_standard_redirect_policy()
+                .with_timeout(Duration::from_secs(30))
+                .with_pool(Default::default())
+                .with_body::<crate::Body, crate::Body>()
+                .layer(tower::layer::util::Identity::new())
+                .with_transport(t)
+                .build()
+        })),
+        // ... and the transport first, TLS in the middle
+        ("with_transport, with_tls, <every re-assembling method>", Box::new(move |t| {
+            Builder::new()
+                .with_transport(t)
+                .with_tls(cfg())
+                .with_auto_http()
+                .with_protocol(HttpConnectionBuilder::default())
+                .with_redirect_policy(policy::Limited::default())
+                .without_redirects()
+                .with_standard_redirect_policy()
+                .with_optional_timeout(None)
+                .without_pool()
+                .with_body::<crate::Body, crate::Body>()
+                .layer(tower::layer::util::Identity::new())
+                .build()
+        })),
+    ];
+
+    let mut wrong = Vec::new();
+    for (order, build) in &orders {
+        for uri in ["https://example.com/secret?token=hunter2", "wss://example.com:8443/secret?token=hunter2"] {
+            let seen = first_bytes_on_the_wire(build.as_ref(), uri).await;
+            println!("{order:62} {uri:45} -> {:02x?}", seen);
+            match seen {
+                Ok(first) if first[0] == 0x16 && first[1] == 0x03 => {}
+                Ok(first) => wrong.push(format!("[{order}] {uri}: the peer received {:?} instead of a TLS handshake", String::from_utf8_lossy(&first))),
+                Err(why) => wrong.push(format!("[{order}] {uri}: no TLS handshake was started: {why}")),
+            }
+        }
+    }
+    // the observation is able to see plaintext: an http request through the same clients starts with the request line
+    for (order, build) in orders.iter().take(2) {
+        let seen = first_bytes_on_the_wire(build.as_ref(), "http://example.com/public").await;
+        assert_eq!(seen.as_ref().map(|b| &b[..]), Ok(&b"GET /"[..]), "[{order}] control: a plain http request is expected in the clear");
+    }
+    assert!(wrong.is_empty(), "TLS was configured, but https / wss traffic did not start with a TLS handshake:\n{}", wrong.join("\n"));
+}
